@@ -37,7 +37,7 @@ var idxSuffixRe = regexp.MustCompile(`\[\d+]$`)
 
 func init() {
 	register(&Prop{ID: "C01", Run: c01Run,
-		Rule: "generic values (string-keyed maps, lists, scalars of Go types int/int64/uint64/float64/string/bool/time.Time, nulls at any position incl. inside lists, empty maps/lists) through FromMap/AsMap; YAML and JSON texts (renderings of generated values, a feature corpus: timestamps, anchors/aliases, merge keys, !!binary, non-string keys, big ints, .inf, multi-document, empty; and a malformed stream: truncations, byte flips, random bytes) through FromReader vs a control decode; Serialize x20 per document and encoder; failing writer/reader at every byte offset. Non-trivial: the value has at least one composite child or the text decodes to a non-empty map; distinct by case hash.",
+		Rule: "generic values (string-keyed maps, lists, scalars of Go types int/int64/uint64/float64/string/bool/time.Time, nulls at any position incl. inside lists, empty maps/lists) through FromMap/AsMap; YAML and JSON texts (renderings of generated values, a feature corpus: timestamps, anchors/aliases, merge keys, !!binary, non-string keys, big ints, .inf, multi-document, empty; and a malformed stream: truncations, byte flips, random bytes) through FromReader vs a control decode; Serialize x20 per document and encoder; failing writer/reader at every byte offset; afterfail: a call that fails part-way (writer failing after n bytes for six n incl. 0, a value the encoder rejects, a reader failing after n bytes, unparsable text) on one document, then ordinary Serialize / FromReader calls on another and on the same document, compared byte for byte with what they produced before the failure; shared: values in which one Go map / slice object occurs at 2-3 positions; big: texts of Size-1 / Size / Size+1 bytes for Size in 512, 4 KiB, 64 KiB, 1 MiB, and with a 2/3/4-byte UTF-8 character starting at offset Size-1, read whole, in chunks of Size / Size-1 / 511 bytes and one byte at a time, reader and writer failing at the threshold; serhist: documents serialised, edited in place (AddValue / Remove / Set / MustSet / Append / Clear ... through nested builders, Lookup, the root's path API) and serialised again, against a freshly built document. Non-trivial: the value has at least one composite child or the text decodes to a non-empty map; distinct by case hash.",
 		Assumptions: []string{
 			"yaml.v3 / encoding/json are external: byte determinism of Serialize rests on the encoder being a function of the value (sorted keys); fault propagation on the codec returning stream errors — validated here by repeated calls and by fault enumeration, not proved",
 			"known finding D26: map keys ending in an index group are interpreted as list indices by FromMap (classified by a decidable predicate on the input's keys)",
@@ -155,6 +155,7 @@ func c01Run(c *Ctx) {
 		c.Tick()
 		c.Do("fault", c01Ser{gs.Doc(r), pick(r, []string{"yaml", "json"})})
 	}
+	c01RunMore(c) // c01_more.go: calls after a failed call, shared Go objects, size thresholds, documents with a history
 }
 
 // c01AnyKeys rewrites some string-keyed maps below the root into maps keyed by ints, bools and
@@ -343,6 +344,9 @@ func (r *failAfterReader) Read(p []byte) (int, error) {
 }
 
 func c01Eval(c *Ctx, kind string, raw []byte) {
+	if c01EvalMore(c, kind, raw) {
+		return
+	}
 	switch kind {
 	case "frommap":
 		var p c01Map
@@ -358,6 +362,33 @@ func c01Eval(c *Ctx, kind string, raw []byte) {
 			c01CheckDom(c, "frommap", p.M, cb)
 			// the input map itself must not have been modified
 			c.Direct("frommap:input-untouched", canon(plainWire(plain)) == canon(p.M), nil)
+			// repeated use: a second conversion of the same value and a second AsMap are what the first ones were, and
+			// the earlier results stay what they were whatever is done with the later ones
+			first := cb.AsMap()
+			cb2 := dom.Builder().FromMap(plain)
+			if _, collide := wireIdxKeys(p.M); !collide {
+				c.Direct("frommap:second-FromMap-equal", canon(nodeWire(cb2)) == canon(nodeWire(cb)) && cb2.Equals(cb) && cb.Equals(cb2), nil)
+			}
+			cb2.AddValue("added_", dom.LeafNode(1))
+			for _, k := range sortedKeys(cb2.Children()) {
+				if lb, ok := cb2.Children()[k].(dom.ListBuilder); ok {
+					lb.Append(dom.LeafNode("added"))
+				}
+				if sub, ok := cb2.Children()[k].(dom.ContainerBuilder); ok {
+					sub.AddValue("added_", dom.LeafNode(1))
+				}
+			}
+			second := cb.AsMap()
+			c01Scribble(second)
+			has, collide := wireIdxKeys(p.M)
+			if collide {
+				return // two keys of one map name the same list: the outcome depends on map order (D26 class)
+			}
+			c.DirectF("frommap:earlier-results-unchanged-by-later-calls", canon(plainWire(first)) == canon(p.M) && canon(plainWire(cb.AsMap())) == canon(p.M) && canon(plainWire(plain)) == canon(p.M),
+				map[string]any{"first AsMap now": plainWire(first), "AsMap now": plainWire(cb.AsMap())}, c01Finding(has))
+			// equivalent entry points: the factory and the node decoder function
+			viaFn := dom.DefaultNodeDecoderFn(plain)
+			c.Direct("frommap:DefaultNodeDecoderFn==FromMap", canon(nodeWire(viaFn)) == canon(nodeWire(cb)) && viaFn.Equals(cb) && cb.Equals(viaFn), nil)
 		})
 		c.Direct("frommap:no-panic", out == "ok", txt)
 	case "text":
@@ -491,6 +522,11 @@ func c01Eval(c *Ctx, kind string, raw []byte) {
 					}
 				}
 			}
+			// ... and the call after the failed ones produces what the call before them did
+			var again bytes.Buffer
+			errAgain := cb.Serialize(&again, dom.DefaultNodeEncoderFn, enc)
+			c.Direct("fault:serialize-byte-identical-after-failed-writes", errAgain == nil && bytes.Equal(again.Bytes(), full),
+				map[string]any{"before": string(full), "after": again.String()})
 			dec := dom.DefaultYamlDecoder
 			if p.Fmt == "json" {
 				dec = dom.DefaultJsonDecoder
@@ -514,6 +550,23 @@ func c01Eval(c *Ctx, kind string, raw []byte) {
 			c.Direct("fault:immediate-read-failure-surfaces", err != nil, nil)
 		})
 		c.Direct("fault:no-panic", out == "ok", txt)
+	}
+}
+
+// c01Scribble overwrites everything reachable in a value handed out by AsMap (maps and slices in place).
+func c01Scribble(v any) {
+	switch x := v.(type) {
+	case map[string]any:
+		for k, e := range x {
+			c01Scribble(e)
+			x[k] = "scribbled"
+		}
+		x["scribbled_"] = true
+	case []any:
+		for i, e := range x {
+			c01Scribble(e)
+			x[i] = "scribbled"
+		}
 	}
 }
 
